@@ -644,9 +644,9 @@ META = {
                   "tree (function, class with any number of methods, list, nested dict of any depth with _help entries), every "
                   "signature list (any length, types, defaults, private names), every tokenised command line (options, bare words, "
                   "--config documents with nested sections, repeated and shuffled), every text->value conversion function and both "
-                  "values of as_positional: if no class constructor has a parameter called `subcommand` and no Optional parameter "
-                  "has a str default that YAML reads as null, then the code-shaped model of the PRESENT auto_cli (after the round-2 "
-                  "repairs 5bbebb1/2f69862; the two guards of round 1 are gone) (argparse table of "
+                  "values of as_positional: if no Optional parameter has a str default that YAML reads as null, then the "
+                  "code-shaped model of the PRESENT auto_cli (after the repairs 5bbebb1/2f69862/4bb4764; the three guards of the "
+                  "earlier rounds are gone) (argparse table of "
                   "_add_signature_parameter, per-level namespaces, nested Namespace, dotted-key dispatch loop, _run_component with "
                   "its pops, CPython keyword binding) and the reference semantics agree on every outcome: same call log and "
                   "returned value (the selected component once; constructor then chosen method for a class; each parameter bound "
@@ -658,9 +658,9 @@ META = {
                   "C12_given_else_default, C12_selected_only (dict/list: the first bare word selects, the log is that entry's), "
                   "C12_function_called_once, C12_class_split (model level: constructor and method each get exactly their own "
                   "parameters, method's return value returned), C12_required_iff_no_default and C12_optional_defaults_none (on the "
-                  "code-shaped arg_of_param). C12_class_subcommand_refuted and C12_nullish_default_refuted exhibit the "
-                  "inputs on which the present code violates the property (both guards are needed); C12_reserved_names_refuted, "
-                  "C12_reserved_config_refuted, C12_private_optional_refuted are regression witnesses about the pre-repair model "
+                  "code-shaped arg_of_param). C12_nullish_default_refuted exhibits the "
+                  "input on which the present code violates the property (the guard is needed); C12_reserved_names_refuted, "
+                  "C12_reserved_config_refuted, C12_private_optional_refuted, C12_class_subcommand_refuted are regression witnesses about the pre-repair model "
                   "(auto_cli true) and C12_round1_inputs_repaired shows the same inputs on the present model; "
                   "C12_guards_satisfiable is a non-trivial input inside the guards. The model is tied to the real auto_cli by "
                   "generated Python modules whose callees record their arguments; model- and spec-agreement are computed inside Coq.",
@@ -673,9 +673,9 @@ META = {
                   "never generated) for: constructor parameter named `subcommand` of a class WITH methods or named like a method, subcommand named `config`, "
                   "--config sections for another subcommand than the chosen one, subcommand chosen by the config (C17), duplicate "
                   "or empty names, a parameter named print_shtab. async components, set_defaults, fail_untyped=False, properties "
-                  "as subcommands, dataclass/subclass-typed parameters are outside the model. Round-1 findings reserved-param-names and "
-                  "private-optional-without-default are repaired in /repo. Open findings (reproduced bug-for-bug by the model): "
-                  "class-subcommand-param (fix patch in fixes/) and nullish-str-default (no safe fix).",
+                  "as subcommands, dataclass/subclass-typed parameters are outside the model. Findings reserved-param-names, "
+                  "private-optional-without-default and class-subcommand-param are repaired in /repo. Open finding (reproduced "
+                  "bug-for-bug by the model): nullish-str-default (no safe fix).",
     "technique": "Rocq proof by simulation/refinement (code-shaped namespace fold vs. last-assignment reference semantics, induction over "
                  "token lists and frame chains, all component trees) + generated-program correspondence (real modules, real auto_cli) "
                  "judged inside Coq",
